@@ -15,11 +15,13 @@ package snow
 import (
 	"context"
 	"encoding/json"
+	"errors"
 	"fmt"
 	"sort"
 	"strings"
 	"sync"
 	"testing"
+	"unsafe"
 
 	"github.com/ava-labs/avalanchego/database/memdb"
 	"github.com/ava-labs/avalanchego/ids"
@@ -72,7 +74,38 @@ func (c *vChain) Initialize(ctx context.Context, in ChainInput, _ *VM[*TestBlock
 	if err := ci.UpdateLastAccepted(ctx, c.genesis); err != nil {
 		return nil, nil, nil, false, err
 	}
-	return ci, c.genesis, c.genesis, c.ready, nil
+	return &vIndex{ci}, c.genesis, c.genesis, c.ready, nil
+}
+
+// vIndex makes every access to the chain index a visible step of the controlled scheduler (the
+// index and its database synchronise with native locks the scheduler does not see), so another
+// thread can be scheduled between the VM's own bookkeeping and the index write / read.
+type vIndex struct{ ix ChainIndex[*TestBlock] }
+
+func (v *vIndex) touch() { vsched.Touch(unsafe.Pointer(v)) }
+func (v *vIndex) UpdateLastAccepted(ctx context.Context, b *TestBlock) error {
+	v.touch()
+	return v.ix.UpdateLastAccepted(ctx, b)
+}
+func (v *vIndex) GetLastAcceptedHeight(ctx context.Context) (uint64, error) {
+	v.touch()
+	return v.ix.GetLastAcceptedHeight(ctx)
+}
+func (v *vIndex) GetBlock(ctx context.Context, id ids.ID) (*TestBlock, error) {
+	v.touch()
+	return v.ix.GetBlock(ctx, id)
+}
+func (v *vIndex) GetBlockIDAtHeight(ctx context.Context, h uint64) (ids.ID, error) {
+	v.touch()
+	return v.ix.GetBlockIDAtHeight(ctx, h)
+}
+func (v *vIndex) GetBlockIDHeight(ctx context.Context, id ids.ID) (uint64, error) {
+	v.touch()
+	return v.ix.GetBlockIDHeight(ctx, id)
+}
+func (v *vIndex) GetBlockByHeight(ctx context.Context, h uint64) (*TestBlock, error) {
+	v.touch()
+	return v.ix.GetBlockByHeight(ctx, h)
 }
 
 func (*vChain) SetConsensusIndex(*ConsensusIndex[*TestBlock, *TestBlock, *TestBlock]) {}
@@ -238,12 +271,18 @@ func (o c20Op) String() string {
 			return fmt.Sprintf("parse+verify(new INVALID child of b%d)", o.a)
 		}
 		return fmt.Sprintf("parse+verify(new child of b%d)", o.a)
+	case "parsectx":
+		return fmt.Sprintf("parse(new child of b%d); verify with a mismatched P-chain context (must fail); verify", o.a)
+	case "buildctx":
+		return "build; verify with a mismatched P-chain context (must fail); verify"
 	case "known":
 		return fmt.Sprintf("parse(known b%d)", o.a)
 	case "pref":
 		return fmt.Sprintf("set-preference(b%d)", o.a)
 	case "accept":
 		return fmt.Sprintf("accept(b%d)", o.a)
+	case "acceptr":
+		return fmt.Sprintf("accept(b%d) while another thread looks the block up by id", o.a)
 	case "finish":
 		return fmt.Sprintf("finish-state-sync(target b%d)", o.a)
 	}
@@ -251,7 +290,7 @@ func (o c20Op) String() string {
 }
 
 func encOp(o c20Op) int {
-	k := map[string]int{"build": 0, "parse": 1, "known": 2, "pref": 3, "accept": 4, "drain": 5, "startsync": 6, "finish": 7}[o.kind]
+	k := map[string]int{"build": 0, "parse": 1, "known": 2, "pref": 3, "accept": 4, "drain": 5, "startsync": 6, "finish": 7, "parsectx": 8, "buildctx": 9, "acceptr": 10}[o.kind]
 	f := 0
 	if o.flag {
 		f = 1
@@ -260,7 +299,7 @@ func encOp(o c20Op) int {
 }
 
 func decOp(x int) c20Op {
-	kinds := []string{"build", "parse", "known", "pref", "accept", "drain", "startsync", "finish"}
+	kinds := []string{"build", "parse", "known", "pref", "accept", "drain", "startsync", "finish", "parsectx", "buildctx", "acceptr"}
 	return c20Op{kind: kinds[x/100], a: (x % 100) / 2, flag: x%2 == 1}
 }
 
@@ -275,6 +314,18 @@ func (e *vEngine) apply(o c20Op) (string, string) {
 		e.blocks = append(e.blocks, m)
 		return m
 	}
+	badCtx := &block.Context{PChainHeight: 7}
+	if o.kind == "parsectx" {
+		o.kind, o.flag = "parse", false
+	} else if o.kind == "buildctx" {
+		o.kind = "build"
+	} else {
+		badCtx = nil
+	}
+	withReader := o.kind == "acceptr"
+	if withReader {
+		o.kind = "accept"
+	}
 	switch o.kind {
 	case "build":
 		sb, err := e.vm.VM.BuildBlock(ctx)
@@ -285,6 +336,11 @@ func (e *vEngine) apply(o c20Op) (string, string) {
 			return "build-wrong-parent", "built block does not extend the preference"
 		}
 		m := add(sb, e.pref, false, true)
+		if badCtx != nil {
+			if err := sb.VerifyWithContext(ctx, badCtx); !errors.Is(err, errMismatchedPChainContext) {
+				return "mismatched-pchain-context-not-rejected", fmt.Sprintf("VerifyWithContext(height 7) of built b%d (no inner context): %v", m.num, err)
+			}
+		}
 		if err := sb.Verify(ctx); err != nil {
 			return "built-block-fails-verify", err.Error()
 		}
@@ -303,6 +359,11 @@ func (e *vEngine) apply(o c20Op) (string, string) {
 			return "parse-wrong-id", "parsed block id differs"
 		}
 		m := add(sb, o.a, o.flag, false)
+		if badCtx != nil {
+			if err := sb.VerifyWithContext(ctx, badCtx); !errors.Is(err, errMismatchedPChainContext) {
+				return "mismatched-pchain-context-not-rejected", fmt.Sprintf("VerifyWithContext(height 7) of parsed b%d (no inner context): %v", m.num, err)
+			}
+		}
 		err = sb.Verify(ctx)
 		vacuous := e.syncing && !e.finished
 		switch {
@@ -339,8 +400,27 @@ func (e *vEngine) apply(o c20Op) (string, string) {
 		e.pref = o.a
 	case "accept":
 		m := e.blocks[o.a]
+		var rd chan string
+		if withReader {
+			// an API / p2p thread (no consensus lock) asks for the block while it is being accepted
+			rd = vsched.Make[string](1)
+			vsched.Go(func() {
+				res := ""
+				if blk, err := e.vm.VM.GetBlock(ctx, m.sb.ID()); err != nil {
+					res = err.Error()
+				} else if blk.ID() != m.sb.ID() {
+					res = "a different block was returned"
+				}
+				vsched.Send(rd, res)
+			})
+		}
 		if err := m.sb.Accept(ctx); err != nil {
 			return "accept-fails", fmt.Sprintf("Accept(b%d): %v", m.num, err)
+		}
+		if rd != nil {
+			if res := vsched.Recv(rd); res != "" {
+				return "verified-block-not-found-while-being-accepted", fmt.Sprintf("GetBlock(b%d) from a second thread during Accept(b%d): %s", m.num, m.num, res)
+			}
 		}
 		m.status = 1
 		e.lastAcc = m.num
@@ -613,11 +693,18 @@ func (e *vEngine) enabled(maxBlocks int, sync bool) []int {
 	if n < maxBlocks {
 		if !(e.syncing && !e.finished) && e.blocks[e.pref].sb.verified { // the builder needs a verified preference
 			en = append(en, encOp(c20Op{kind: "build"}))
+			if !e.syncing {
+				en = append(en, encOp(c20Op{kind: "buildctx"}))
+			}
 		}
 		for i, m := range e.blocks {
 			if i == e.lastAcc || (e.live(i) && m.verified) {
 				en = append(en, encOp(c20Op{kind: "parse", a: i}))
 				en = append(en, encOp(c20Op{kind: "parse", a: i, flag: true}))
+				if !e.syncing && i == e.pref {
+					// a failed verification (mismatched P-chain context) followed by the real one
+					en = append(en, encOp(c20Op{kind: "parsectx", a: i}))
+				}
 			}
 		}
 	}
@@ -811,6 +898,8 @@ func c20Schedules(t *testing.T, r *evid.Run, prop string) int {
 		mk(c20Op{kind: "build"}, c20Op{kind: "accept", a: 1}, c20Op{kind: "build"}, c20Op{kind: "accept", a: 2}, c20Op{kind: "drain"}),
 		mk(c20Op{kind: "parse", a: 0}, c20Op{kind: "parse", a: 0}, c20Op{kind: "accept", a: 1}, c20Op{kind: "parse", a: 1}, c20Op{kind: "drain"}),
 		mk(c20Op{kind: "build"}, c20Op{kind: "build"}, c20Op{kind: "accept", a: 1}, c20Op{kind: "accept", a: 2}, c20Op{kind: "known", a: 2}, c20Op{kind: "drain"}),
+		mk(c20Op{kind: "build"}, c20Op{kind: "acceptr", a: 1}, c20Op{kind: "drain"}),
+		mk(c20Op{kind: "parse", a: 0}, c20Op{kind: "parse", a: 0}, c20Op{kind: "acceptr", a: 2}, c20Op{kind: "drain"}),
 	}
 	bound := evid.Pick(r, 2, 3)
 	total := 0
